@@ -9,7 +9,11 @@
 (* of ReapersGuards.tla are evaluated on the model's own state and on the  *)
 (* recorded state of the real code alike), the set of instances the        *)
 (* provider lists, a population of further nodes of the pool / cluster     *)
-(* (for the 20 % circuit breaker), the clock in seconds.                   *)
+(* (for the 20 % circuit breaker; some of its unhealthy nodes are already  *)
+(* terminating - an earlier repair wave still draining), the clock in      *)
+(* MILLISECONDS.  Stamps written to objects (creation, condition           *)
+(* transitions, the termination annotation) are whole seconds, truncated   *)
+(* like the API does.                                                      *)
 (*                                                                         *)
 (* Granularity (DESIGN 2.1, coarse): one reconcile is one action made of   *)
 (* the controller's sequence of reads - each of which can fail - followed  *)
@@ -17,9 +21,12 @@
 (* fails, the effect is the prefix of writes up to that call.  Environment *)
 (* steps (instance vanishes, node NotReady/Ready/gone, unhealthy condition *)
 (* appears/clears, other nodes of the pool turn unhealthy/recover, user    *)
-(* delete, launch/registration progress, restart) and clock ticks to one   *)
-(* second before / exactly at / one second after every pending deadline    *)
-(* interleave between reconciles.                                          *)
+(* delete, repaired nodes lingering as terminating objects, launch /       *)
+(* registration progress, restart) and clock ticks to sub-second offsets   *)
+(* (Offsets, e.g. -501 ms, -500 ms, -1 ms, 0, +1 ms) around every pending   *)
+(* deadline interleave between reconciles.  A failing read has a kind      *)
+(* (generic error / NotFound-typed error): a read that failed establishes  *)
+(* nothing whatever the type of its error.                                 *)
 (*                                                                         *)
 (* The history records, for every reconcile, the deletes the model       *)
 (* expects (del); the check compares them with what the real controller    *)
@@ -35,25 +42,33 @@
 EXTENDS ReapersGuards, Json
 
 CONSTANTS Claims,            \* subset of {"c1","c2","c3"} (static attributes in Attr)
-          MaxNow, MaxFaults, MaxEnv, MaxLen,
+          MaxNow,            \* clock bound in seconds
+          MaxFaults, MaxEnv, MaxLen,
           NoopEvery,         \* 1 = reconciles that change nothing are always possible (checking); k > 1 = only at every k-th
                              \* position of a behaviour (generation: random walks then spend their steps on reconciles that act)
-          EA,                \* expireAfter of c1/c3 (c2: Never)
-          LT, RT,            \* launch / registration timeouts
-          TolReady, TolDisk, \* tolerations of the two repair policies
+          OffBefore, OffAfter, \* clock positions around every deadline: milliseconds before it / at or after it
+          EA,                \* expireAfter of c1/c3 in seconds (c2: Never)
+          LT, RT,            \* launch / registration timeouts (s)
+          TolReady, TolDisk, \* tolerations of the two repair policies (s)
           PoolBg, OtherBg,   \* sets of possible numbers of further nodes in the pool / outside it
           ReadyVals,         \* statuses the Ready condition of a claim's node can take
           MaxBad,            \* at most this many of them start unhealthy
-          ExpireSlack,       \* 0 = code; 1 = expires one second early
+          MaxDel,            \* at most this many of the unhealthy ones start terminating
+          RoundedClock,      \* reapers that compare a clock reading rounded to the nearest second: {} = code;
+                             \* subsets of {"expire", "live", "repair"} = mutations (up to 500 ms early)
+          ExpireSlack,       \* 0 = code; 1 = expires one millisecond early
           ExpireNever,       \* "check" = code; "ignore" = disabled expiry not tested
           GcOnProvListError, \* "abort" = code; "continue" = failed provider List read as empty
-          GcOnLookupError,   \* "skip" = documented; "delete" = pinned tree (continues after the failed Node lookup)
+          GcOnLookupError,   \* "skip" = code (since fix 1d47e5fbe); "delete" = continues after the failed Node lookup
           GcReady,           \* "check" = code; "ignore" = Node readiness not consulted
-          LiveSlack,         \* 0 = code; 1 = one second early
-          RepairSlack,       \* 0 = code; 1 = one second before the toleration elapsed
+          NotFoundAsEmpty,   \* reads whose NotFound-typed failure is taken for an empty answer: {} = code;
+                             \* subsets of {"provList", "nodeLookup", "nodeList"} = mutations
+          LiveSlack,         \* 0 = code; 1 = one millisecond early
+          RepairSlack,       \* 0 = code; 1 = one millisecond before the toleration elapsed
           RepairExtra,       \* 0 = code; 1 = one more unhealthy node tolerated than 20 % rounded up
           RepairScope,       \* "pool" = code; "cluster" = pool claims judged against the whole cluster
-          RepairOnListError  \* "abort" = code; "continue" = failed node List read as empty
+          RepairOnListError, \* "abort" = code; "continue" = failed node List read as empty
+          RepairTerminating  \* "count" = code; "skip" = unhealthy nodes that are already terminating not counted
 
 VARIABLES now, claim, node, listed, bg, budget, last, h
 vars == <<now, claim, node, listed, bg, budget, last, h>>
@@ -68,6 +83,12 @@ Policies == << [type |-> "Ready", status |-> "False", toleration |-> TolReady],
 BgPNames == <<"bgp01", "bgp02", "bgp03", "bgp04", "bgp05", "bgp06", "bgp07", "bgp08", "bgp09", "bgp10", "bgp11", "bgp12">>
 BgONames == <<"bgo01", "bgo02", "bgo03", "bgo04", "bgo05", "bgo06", "bgo07", "bgo08", "bgo09", "bgo10", "bgo11", "bgo12">>
 PoolLbl(p) == IF p = "" THEN <<>> ELSE (PoolKey :> p)
+Kinds == {"generic", "notfound"}
+Offsets == {0 - x : x \in OffBefore} \cup OffAfter
+\* the stamp the API stores for "now": whole seconds
+Stamp == now \div 1000
+\* the clock as a reaper reads it
+Clock(who) == IF who \in RoundedClock THEN ((now + 500) \div 1000) * 1000 ELSE now
 
 InitClaim(c) ==
     [name |-> c, exists |-> TRUE, deleting |-> FALSE, created |-> 0, expireAfter |-> Attr[c].ea,
@@ -78,30 +99,32 @@ InitClaim(c) ==
      \* dirty: the lifecycle controller has not reconciled this claim yet; its first reconcile persists the conditions it
      \* initialises (patch + Sleep(1s)), later ones of an unregistered claim change nothing
      dirty |-> ~Attr[c].reg]
-MkNode(name, pid, pool, ready, readySince, bad, badSince) ==
-    [name |-> name, exists |-> TRUE, providerID |-> pid, ready |-> ready, labels |-> PoolLbl(pool),
+MkNode(name, pid, pool, ready, readySince, bad, badSince, del) ==
+    [name |-> name, exists |-> TRUE, deleting |-> del, providerID |-> pid, ready |-> ready, labels |-> PoolLbl(pool),
      conds |-> [Ready |-> ready, BadDisk |-> bad], condSince |-> [Ready |-> readySince, BadDisk |-> badSince]]
 NoNode == [exists |-> FALSE]
-InitNode(c) == IF Attr[c].reg THEN MkNode(Attr[c].node, Attr[c].pid, Attr[c].pool, "True", 0, "False", 0) ELSE NoNode
+InitNode(c) == IF Attr[c].reg THEN MkNode(Attr[c].node, Attr[c].pid, Attr[c].pool, "True", 0, "False", 0, FALSE) ELSE NoNode
 NoLast == [actor |-> "none", ok |-> TRUE]
 
 Min(S) == CHOOSE x \in S : \A y \in S : x <= y
-BgChoices == {[pt |-> t, pu |-> u, ot |-> o, ou |-> v] : t \in PoolBg, u \in 0..MaxBad, o \in OtherBg, v \in 0..MaxBad}
+\* pt/ot further nodes in the pool / outside it, the first pu/ou of them unhealthy, the first pd/od of those terminating
+BgChoices == {[pt |-> t, pu |-> u, pd |-> d, ot |-> o, ou |-> v, od |-> e] :
+                t \in PoolBg, u \in 0..MaxBad, d \in 0..MaxDel, o \in OtherBg, v \in 0..MaxBad, e \in 0..MaxDel}
 Init == /\ now = 0 /\ claim = [c \in Claims |-> InitClaim(c)] /\ node = [c \in Claims |-> InitNode(c)]
         /\ listed = {Attr[c].pid : c \in {x \in Claims : Attr[x].reg}}
-        /\ bg \in {b \in BgChoices : b.pu <= b.pt /\ b.ou <= b.ot}
+        /\ bg \in {b \in BgChoices : b.pd <= b.pu /\ b.pu <= b.pt /\ b.od <= b.ou /\ b.ou <= b.ot}
         /\ budget = [faults |-> 0, env |-> 0] /\ last = NoLast
-        /\ h = << [a |-> "Init", pt |-> bg.pt, pu |-> bg.pu, ot |-> bg.ot, ou |-> bg.ou] >>
+        /\ h = << [a |-> "Init", pt |-> bg.pt, pu |-> bg.pu, pd |-> bg.pd, ot |-> bg.ot, ou |-> bg.ou, od |-> bg.od] >>
 
 \* the Nodes in the store, name -> record
 BgIdx == [k \in {BgPNames[i] : i \in DOMAIN BgPNames} \cup {BgONames[i] : i \in DOMAIN BgONames} |->
             IF \E i \in DOMAIN BgPNames : BgPNames[i] = k THEN CHOOSE i \in DOMAIN BgPNames : BgPNames[i] = k
             ELSE CHOOSE i \in DOMAIN BgONames : BgONames[i] = k]
 NodeOwner == [k \in {Attr[c].node : c \in Claims} |-> CHOOSE c \in Claims : Attr[c].node = k]
-BgFun(names, pool, t, u) == [k \in {names[i] : i \in 1..t} |->
-                               MkNode(k, k, pool, "True", 0, IF BgIdx[k] <= u THEN "True" ELSE "False", 0)]
+BgFun(names, pool, t, u, d) == [k \in {names[i] : i \in 1..t} |->
+                                 MkNode(k, k, pool, "True", 0, IF BgIdx[k] <= u THEN "True" ELSE "False", 0, BgIdx[k] <= d)]
 AllNodes == [k \in {Attr[c].node : c \in {x \in Claims : node[x].exists}} |-> node[NodeOwner[k]]]
-            @@ BgFun(BgPNames, "p", bg.pt, bg.pu) @@ BgFun(BgONames, "", bg.ot, bg.ou)
+            @@ BgFun(BgPNames, "p", bg.pt, bg.pu, bg.pd) @@ BgFun(BgONames, "", bg.ot, bg.ou, bg.od)
 
 Hist(e) == h' = Append(h, e)
 Fault(f) == f = "none" \/ budget.faults < MaxFaults
@@ -109,35 +132,41 @@ Acts(effect) == effect \/ Len(h) % NoopEvery = 0
 Spend(f) == budget' = IF f = "none" THEN budget ELSE [budget EXCEPT !.faults = @ + 1]
 EnvStep == budget.env < MaxEnv /\ budget' = [budget EXCEPT !.env = @ + 1] /\ last' = NoLast
 MarkDeleted(S) == claim' = [c \in Claims |-> IF c \in S THEN [claim[c] EXCEPT !.deleting = TRUE] ELSE claim[c]]
+\* the kind of a failure matters only for reads (and only to a mechanism that looks at it)
+KindOk(f, k, reads) == k = "generic" \/ f \in reads
+AsEmpty(call, k) == k = "notfound" /\ call \in NotFoundAsEmpty
 
 \* ---------------------------------------------------------------- controllers
 \* nodeclaim.expiration: no reads beyond the object handed to the reconcile; Delete; Sleep(1s)
 Expire(c, f) ==
     LET cl == claim[c]
-        due == (ExpireNever = "ignore" \/ cl.expireAfter >= 0) /\ now + ExpireSlack >= cl.created + cl.expireAfter
+        due == (ExpireNever = "ignore" \/ cl.expireAfter >= 0) /\ Clock("expire") + ExpireSlack >= Ms(cl.created + cl.expireAfter)
         act == cl.exists /\ ~cl.deleting /\ due
         ok == act /\ f # "delete"
     IN /\ cl.exists /\ f \in {"none", "delete"} /\ (f = "none" \/ act) /\ Fault(f) /\ Spend(f) /\ Acts(act)
        /\ MarkDeleted(IF ok THEN {c} ELSE {})
-       /\ now' = IF ok THEN now + 1 ELSE now
+       /\ now' = IF ok THEN now + 1000 ELSE now
        /\ last' = IF ok THEN [actor |-> "expire", ok |-> G_C16_Expiration(cl, now)] ELSE NoLast
        /\ UNCHANGED <<node, listed, bg>>
        /\ Hist([a |-> "Expire", c |-> c, f |-> f, del |-> IF ok THEN {c} ELSE {}])
 
 \* nodeclaim.garbagecollection: list NodeClaims, provider List, per candidate a Node lookup by provider id, Delete.
-\* lf = the candidates whose Node lookup fails.
-Gc(f, lf) ==
-    LET abort == f = "claimList" \/ (f = "provList" /\ GcOnProvListError = "abort")
+\* lf = the candidates whose Node lookup fails; k = the kind of the failing read(s).
+Gc(f, lf, k) ==
+    LET provCont == GcOnProvListError = "continue" \/ AsEmpty("provList", k)
+        abort == f = "claimList" \/ (f = "provList" /\ ~provCont)
         seen == IF f = "provList" THEN {} ELSE listed
         cands == {c \in Claims : claim[c].exists /\ claim[c].registered = "True" /\ ~claim[c].deleting
                                  /\ claim[c].providerID \notin seen}
         all == AllNodes
-        nodeReady(c) == \E k \in DOMAIN all : all[k].providerID = claim[c].providerID /\ all[k].ready = "True"
+        nodeReady(c) == \E n \in DOMAIN all : all[n].providerID = claim[c].providerID /\ all[n].ready = "True"
         del == IF abort THEN {}
-               ELSE {c \in cands : IF c \in lf THEN GcOnLookupError = "delete" ELSE (GcReady = "ignore" \/ ~nodeReady(c))}
+               ELSE {c \in cands : IF c \in lf THEN (GcOnLookupError = "delete" \/ AsEmpty("nodeLookup", k))
+                                   ELSE (GcReady = "ignore" \/ ~nodeReady(c))}
         delOk == IF f = "delete" THEN {} ELSE del
     IN /\ f \in {"none", "claimList", "provList", "delete"}
        /\ (lf # {} => (f \in {"none", "delete"} /\ lf \subseteq cands))
+       /\ (k = "generic" \/ f \in {"claimList", "provList"} \/ lf # {})
        /\ (f = "delete" => del # {})
        /\ Acts(del # {} \/ f # "none" \/ lf # {})
        /\ ((f = "none" /\ lf = {}) \/ budget.faults < MaxFaults)
@@ -147,86 +176,100 @@ Gc(f, lf) ==
                   ELSE [actor |-> "gc",
                         ok |-> \A c \in delOk : G_C16_GarbageCollection(claim[c], f # "provList", listed, c \notin lf, all)]
        /\ UNCHANGED <<now, node, listed, bg>>
-       /\ Hist([a |-> "Gc", f |-> f, lf |-> lf, del |-> delOk])
+       /\ Hist([a |-> "Gc", f |-> f, lf |-> lf, k |-> k, del |-> delOk])
 
-\* nodeclaim.lifecycle liveness (bound through Lifecycle.tla's driver as well): Get NodePool, Delete
-Live(c, f) ==
+\* nodeclaim.lifecycle liveness (bound through Lifecycle.tla's driver as well): Get NodePool, Delete.
+\* The NodePool Get only feeds the pool's health condition: a NotFound answer is ignored, any other error ends the reconcile.
+Live(c, f, k) ==
     LET cl == claim[c]
-        lDue == cl.launched # "True" /\ now + LiveSlack - cl.condSince.Launched >= LT
-        rDue == cl.launched = "True" /\ now + LiveSlack - cl.condSince.Registered >= RT
+        lDue == cl.launched # "True" /\ Clock("live") + LiveSlack >= Ms(cl.condSince.Launched + LT)
+        rDue == cl.launched = "True" /\ Clock("live") + LiveSlack >= Ms(cl.condSince.Registered + RT)
         act == cl.exists /\ ~cl.deleting /\ cl.registered # "True" /\ (lDue \/ rDue)
-        ok == act /\ f = "none"
+        ok == act /\ (f = "none" \/ (f = "poolGet" /\ k = "notfound"))
     IN /\ cl.exists /\ ~cl.deleting /\ cl.registered # "True"
-       /\ f \in {"none", "poolGet", "delete"} /\ (f = "none" \/ act) /\ Fault(f) /\ Spend(f) /\ Acts(act \/ cl.dirty)
+       /\ f \in {"none", "poolGet", "delete"} /\ KindOk(f, k, {"poolGet"})
+       /\ (f = "none" \/ act) /\ Fault(f) /\ Spend(f) /\ Acts(act \/ cl.dirty)
        /\ claim' = [claim EXCEPT ![c] = [@ EXCEPT !.deleting = @ \/ ok, !.dirty = FALSE]]
-       /\ now' = IF cl.dirty THEN now + 1 ELSE now      \* Sleep(1s) after the status patch
-       /\ last' = IF ok THEN [actor |-> "live", ok |-> G_C16_Liveness(cl, now, LT, RT)] ELSE NoLast
+       /\ now' = IF cl.dirty THEN now + 1000 ELSE now      \* Sleep(1s) after the status patch
+       /\ last' = IF ok THEN [actor |-> "live", ok |-> G_C16_LivenessMs(cl, now, LT, RT)] ELSE NoLast
        /\ UNCHANGED <<node, listed, bg>>
-       /\ Hist([a |-> "Live", c |-> c, f |-> f, del |-> IF ok THEN {c} ELSE {}])
+       /\ Hist([a |-> "Live", c |-> c, f |-> f, k |-> k, del |-> IF ok THEN {c} ELSE {}])
 
 \* node.health: NodeClaim lookup by provider id, unhealthy condition + toleration, node List of the pool / cluster,
-\* termination-timestamp annotation patch, Delete of the NodeClaim
+\* termination-timestamp annotation patch (RFC3339: whole seconds), Delete of the NodeClaim
 MatchIdx(n) == {i \in DOMAIN Policies : Matches(n, Policies[i])}
 TermTime(n, i) == n.condSince[Policies[i].type] + Policies[i].toleration
-Repair(c, f) ==
+Repair(c, f, k) ==
     LET n == node[c]
         cl == claim[c]
         found == cl.exists /\ cl.providerID = n.providerID
         m == MatchIdx(n)
-        due == m # {} /\ now + RepairSlack >= Min({TermTime(n, i) : i \in m})
+        due == m # {} /\ Clock("repair") + RepairSlack >= Ms(Min({TermTime(n, i) : i \in m}))
         all == AllNodes
         scope == IF RepairScope = "cluster" \/ ~HasPool(cl) THEN DOMAIN all
-                 ELSE {k \in DOMAIN all : HasPool(all[k]) /\ all[k].labels[PoolKey] = cl.labels[PoolKey]}
+                 ELSE {x \in DOMAIN all : HasPool(all[x]) /\ all[x].labels[PoolKey] = cl.labels[PoolKey]}
+        listCont == RepairOnListError = "continue" \/ AsEmpty("nodeList", k)
         seen == IF f = "nodeList" THEN {} ELSE scope
-        bad == Cardinality({k \in seen : Unhealthy(all[k], Policies)})
+        bad == Cardinality({x \in seen : Unhealthy(all[x], Policies) /\ (RepairTerminating = "count" \/ ~all[x].deleting)})
         thr == ((20 * Cardinality(seen) + 99) \div 100) + RepairExtra
         s1 == f # "claimList" /\ found /\ due
-        s2 == s1 /\ (f # "nodeList" \/ RepairOnListError = "continue") /\ bad <= thr
-        needPatch == ~(cl.terminationAt >= 0 /\ cl.terminationAt < now) /\ cl.terminationAt # now
+        s2 == s1 /\ (f # "nodeList" \/ listCont) /\ bad <= thr
+        needPatch == ~(cl.terminationAt >= 0 /\ Ms(cl.terminationAt) < now) /\ cl.terminationAt # Stamp
         annotate == s2 /\ needPatch /\ f # "annotate"
         s3 == s2 /\ ~(needPatch /\ f = "annotate")
         del == s3 /\ ~cl.deleting /\ f # "delete"
-    IN /\ n.exists /\ f \in {"none", "claimList", "nodeList", "annotate", "delete"} /\ Fault(f) /\ Spend(f)
+    IN /\ n.exists /\ f \in {"none", "claimList", "nodeList", "annotate", "delete"} /\ KindOk(f, k, {"claimList", "nodeList"})
+       /\ Fault(f) /\ Spend(f)
        /\ (f = "nodeList" => found /\ due)
        /\ (f = "annotate" => s2 /\ needPatch)
        /\ (f = "delete" => s3 /\ ~cl.deleting)
        /\ Acts(s1 \/ f # "none")
-       /\ claim' = [claim EXCEPT ![c] = [@ EXCEPT !.terminationAt = IF annotate THEN now ELSE @,
+       /\ claim' = [claim EXCEPT ![c] = [@ EXCEPT !.terminationAt = IF annotate THEN Stamp ELSE @,
                                                    !.deleting = @ \/ del]]
        /\ last' = IF del THEN [actor |-> "repair", ok |-> G_C16_Repair(cl, n, now, Policies, all)] ELSE NoLast
        /\ UNCHANGED <<now, node, listed, bg>>
-       /\ Hist([a |-> "Repair", c |-> c, f |-> f, del |-> IF del THEN {c} ELSE {}])
+       /\ Hist([a |-> "Repair", c |-> c, f |-> f, k |-> k, del |-> IF del THEN {c} ELSE {}])
 
 \* ---------------------------------------------------------------- environment
+\* pending deadlines, in milliseconds
 Deadlines ==
-    {claim[c].created + claim[c].expireAfter : c \in {x \in Claims : claim[x].exists /\ ~claim[x].deleting /\ claim[x].expireAfter >= 0}}
-    \cup UNION {{TermTime(node[c], i) : i \in MatchIdx(node[c])} : c \in {x \in Claims : node[x].exists}}
-    \cup UNION {{claim[c].condSince.Launched + LT, claim[c].condSince.Registered + RT} :
+    {Ms(claim[c].created + claim[c].expireAfter) : c \in {x \in Claims : claim[x].exists /\ ~claim[x].deleting /\ claim[x].expireAfter >= 0}}
+    \cup UNION {{Ms(TermTime(node[c], i)) : i \in MatchIdx(node[c])} : c \in {x \in Claims : node[x].exists}}
+    \cup UNION {{Ms(claim[c].condSince.Launched + LT), Ms(claim[c].condSince.Registered + RT)} :
                 c \in {x \in Claims : claim[x].exists /\ ~claim[x].deleting /\ claim[x].registered # "True"}}
-Tick(to) == /\ to > now /\ to <= MaxNow
+Tick(to) == /\ to > now /\ to <= Ms(MaxNow)
             /\ now' = to /\ last' = NoLast
             /\ UNCHANGED <<claim, node, listed, bg, budget>>
-            /\ Hist([a |-> "Tick", to |-> to])
+            /\ Hist([a |-> "Tick", tms |-> to])
 
 InstanceVanishes(c) ==
     /\ claim[c].providerID \in listed /\ listed' = listed \ {claim[c].providerID} /\ EnvStep
     /\ UNCHANGED <<now, claim, node, bg>> /\ Hist([a |-> "InstanceVanishes", c |-> c])
 NodeReady(c, s) ==
     /\ node[c].exists /\ node[c].ready # s /\ EnvStep
-    /\ node' = [node EXCEPT ![c] = [@ EXCEPT !.ready = s, !.conds.Ready = s, !.condSince.Ready = now]]
+    /\ node' = [node EXCEPT ![c] = [@ EXCEPT !.ready = s, !.conds.Ready = s, !.condSince.Ready = Stamp]]
     /\ UNCHANGED <<now, claim, listed, bg>> /\ Hist([a |-> "NodeReady", c |-> c, s |-> s])
 DiskBad(c, s) ==
     /\ node[c].exists /\ node[c].conds.BadDisk # s /\ EnvStep
-    /\ node' = [node EXCEPT ![c] = [@ EXCEPT !.conds.BadDisk = s, !.condSince.BadDisk = now]]
+    /\ node' = [node EXCEPT ![c] = [@ EXCEPT !.conds.BadDisk = s, !.condSince.BadDisk = Stamp]]
     /\ UNCHANGED <<now, claim, listed, bg>> /\ Hist([a |-> "DiskBad", c |-> c, s |-> s])
 NodeGone(c) ==
     /\ node[c].exists /\ EnvStep /\ node' = [node EXCEPT ![c] = NoNode]
     /\ UNCHANGED <<now, claim, listed, bg>> /\ Hist([a |-> "NodeGone", c |-> c])
-\* another node of the pool ("p") / outside it ("o") turns unhealthy (d = 1) or recovers (d = -1)
+\* the Node of a claim that is being deleted gets deleted in turn (lifecycle finalize) and lingers, terminating, behind
+\* its finalizer while it drains
+NodeTerminating(c) ==
+    /\ node[c].exists /\ ~node[c].deleting /\ claim[c].deleting /\ EnvStep
+    /\ node' = [node EXCEPT ![c] = [@ EXCEPT !.deleting = TRUE]]
+    /\ UNCHANGED <<now, claim, listed, bg>> /\ Hist([a |-> "NodeTerminating", c |-> c])
+\* another node of the pool ("p") / outside it ("o") turns unhealthy (d = 1), recovers (d = -1), or - unhealthy and
+\* repaired in an earlier wave - is now terminating (d = 0)
 BgFlip(sc, d) ==
     /\ EnvStep
-    /\ \/ (sc = "p" /\ bg.pu + d \in 0..bg.pt /\ bg' = [bg EXCEPT !.pu = @ + d])
-       \/ (sc = "o" /\ bg.ou + d \in 0..bg.ot /\ bg' = [bg EXCEPT !.ou = @ + d])
+    /\ \/ (sc = "p" /\ d # 0 /\ bg.pu + d \in bg.pd..bg.pt /\ bg' = [bg EXCEPT !.pu = @ + d])
+       \/ (sc = "o" /\ d # 0 /\ bg.ou + d \in bg.od..bg.ot /\ bg' = [bg EXCEPT !.ou = @ + d])
+       \/ (sc = "p" /\ d = 0 /\ bg.pd < bg.pu /\ bg' = [bg EXCEPT !.pd = @ + 1])
+       \/ (sc = "o" /\ d = 0 /\ bg.od < bg.ou /\ bg' = [bg EXCEPT !.od = @ + 1])
     /\ UNCHANGED <<now, claim, node, listed>> /\ Hist([a |-> "BgFlip", sc |-> sc, d |-> d])
 UserDelete(c) ==
     /\ claim[c].exists /\ ~claim[c].deleting /\ EnvStep /\ MarkDeleted({c})
@@ -234,13 +277,13 @@ UserDelete(c) ==
 \* launch / registration progress of an unregistered claim (lifecycle controller + kubelet, abstracted)
 EnvLaunched(c) ==
     /\ claim[c].exists /\ ~claim[c].deleting /\ claim[c].launched # "True" /\ EnvStep
-    /\ claim' = [claim EXCEPT ![c] = [@ EXCEPT !.launched = "True", !.providerID = Attr[c].pid, !.condSince.Launched = now]]
+    /\ claim' = [claim EXCEPT ![c] = [@ EXCEPT !.launched = "True", !.providerID = Attr[c].pid, !.condSince.Launched = Stamp]]
     /\ listed' = listed \cup {Attr[c].pid}
     /\ UNCHANGED <<now, node, bg>> /\ Hist([a |-> "Launched", c |-> c])
 EnvRegistered(c) ==
     /\ claim[c].exists /\ ~claim[c].deleting /\ claim[c].launched = "True" /\ claim[c].registered # "True" /\ EnvStep
-    /\ claim' = [claim EXCEPT ![c] = [@ EXCEPT !.registered = "True", !.condSince.Registered = now]]
-    /\ node' = [node EXCEPT ![c] = MkNode(Attr[c].node, Attr[c].pid, Attr[c].pool, "True", now, "False", now)]
+    /\ claim' = [claim EXCEPT ![c] = [@ EXCEPT !.registered = "True", !.condSince.Registered = Stamp]]
+    /\ node' = [node EXCEPT ![c] = MkNode(Attr[c].node, Attr[c].pid, Attr[c].pool, "True", Stamp, "False", Stamp, FALSE)]
     /\ UNCHANGED <<now, listed, bg>> /\ Hist([a |-> "Registered", c |-> c])
 \* the reapers keep no in-memory state: a restart re-instantiates the controllers
 Restart == /\ EnvStep /\ UNCHANGED <<now, claim, node, listed, bg>> /\ Hist([a |-> "Restart"])
@@ -248,26 +291,27 @@ Restart == /\ EnvStep /\ UNCHANGED <<now, claim, node, listed, bg>> /\ Hist([a |
 \* one named disjunct per action, so that TLC's coverage reports each of them
 Bound == Len(h) < MaxLen
 DoExpire == Bound /\ \E c \in Claims, f \in {"none", "delete"} : Expire(c, f)
-DoGc == Bound /\ \E f \in {"none", "claimList", "provList", "delete"}, lf \in {{}} \cup {{c} : c \in Claims} \cup {Claims} : Gc(f, lf)
-DoLive == Bound /\ \E c \in Claims, f \in {"none", "poolGet", "delete"} : Live(c, f)
-DoRepair == Bound /\ \E c \in Claims, f \in {"none", "claimList", "nodeList", "annotate", "delete"} : Repair(c, f)
-DoTick == Bound /\ \E d \in Deadlines, o \in {-1, 0, 1} : Tick(d + o)
+DoGc == Bound /\ \E f \in {"none", "claimList", "provList", "delete"}, lf \in {{}} \cup {{c} : c \in Claims} \cup {Claims}, k \in Kinds : Gc(f, lf, k)
+DoLive == Bound /\ \E c \in Claims, f \in {"none", "poolGet", "delete"}, k \in Kinds : Live(c, f, k)
+DoRepair == Bound /\ \E c \in Claims, f \in {"none", "claimList", "nodeList", "annotate", "delete"}, k \in Kinds : Repair(c, f, k)
+DoTick == Bound /\ \E d \in Deadlines, o \in Offsets : Tick(d + o)
 DoInstanceVanishes == Bound /\ \E c \in Claims : InstanceVanishes(c)
 DoNodeGone == Bound /\ \E c \in Claims : NodeGone(c)
+DoNodeTerminating == Bound /\ \E c \in Claims : NodeTerminating(c)
 DoUserDelete == Bound /\ \E c \in Claims : UserDelete(c)
 DoLaunched == Bound /\ \E c \in Claims : EnvLaunched(c)
 DoRegistered == Bound /\ \E c \in Claims : EnvRegistered(c)
 DoNodeReady == Bound /\ \E c \in Claims, s \in ReadyVals : NodeReady(c, s)
 DoDiskBad == Bound /\ \E c \in Claims, s \in {"True", "False"} : DiskBad(c, s)
-DoBgFlip == Bound /\ \E sc \in {"p", "o"}, d \in {-1, 1} : BgFlip(sc, d)
+DoBgFlip == Bound /\ \E sc \in {"p", "o"}, d \in {-1, 0, 1} : BgFlip(sc, d)
 DoRestart == Bound /\ Restart
-Next == DoExpire \/ DoGc \/ DoLive \/ DoRepair \/ DoTick \/ DoInstanceVanishes \/ DoNodeGone \/ DoUserDelete
+Next == DoExpire \/ DoGc \/ DoLive \/ DoRepair \/ DoTick \/ DoInstanceVanishes \/ DoNodeGone \/ DoNodeTerminating \/ DoUserDelete
         \/ DoLaunched \/ DoRegistered \/ DoNodeReady \/ DoDiskBad \/ DoBgFlip \/ DoRestart
 Spec == Init /\ [][Next]_vars
 
 \* ---------------------------------------------------------------- properties of the closed model
-TypeOK == /\ now \in 0..(MaxNow + MaxLen) /\ listed \subseteq {"i1", "i2", "i3"}
-          /\ bg.pu \in 0..bg.pt /\ bg.ou \in 0..bg.ot
+TypeOK == /\ now \in 0..Ms(MaxNow + MaxLen) /\ listed \subseteq {"i1", "i2", "i3"}
+          /\ bg.pd \in 0..bg.pu /\ bg.pu \in 0..bg.pt /\ bg.od \in 0..bg.ou /\ bg.ou \in 0..bg.ot
           /\ \A c \in Claims : claim[c].registered \in {"True", "Unknown"} /\ claim[c].expireAfter \in {-1, EA}
 \* every delete a reaper performs happens on its documented trigger (guard evaluated on the state before the delete)
 Inv_C16_Expiration == last.actor = "expire" => last.ok
@@ -279,7 +323,7 @@ Act_C16_NoTriggerNoReap ==
     [][ \A c \in Claims :
           (/\ claim[c].exists /\ ~claim[c].deleting /\ claim'[c].deleting
            /\ h' # h /\ h'[Len(h')].a \in {"Expire", "Gc", "Live", "Repair"})
-          => \/ (claim[c].expireAfter >= 0 /\ now >= claim[c].created + claim[c].expireAfter)
+          => \/ (claim[c].expireAfter >= 0 /\ now >= Ms(claim[c].created + claim[c].expireAfter))
              \/ claim[c].registered # "True"
              \/ claim[c].providerID \notin listed
              \/ (node[c].exists /\ Unhealthy(node[c], Policies)) ]_vars
